@@ -297,7 +297,7 @@ def evaluate__substring(self: XPathFunction, context: ta.ContextType = None) -> 
         start = self.get_argument(context, index=1, required=True)
         if math.isnan(start) or math.isinf(start):
             return ''
-    except TypeError:
+    except (TypeError, ValueError):
         if isinstance(context, XPathSchemaContext):
             start = 0
         else:
@@ -312,7 +312,7 @@ def evaluate__substring(self: XPathFunction, context: ta.ContextType = None) -> 
             length = self.get_argument(context, index=2, required=True)
             if math.isnan(length) or length <= 0:
                 return ''
-        except TypeError:
+        except (TypeError, ValueError):
             if isinstance(context, XPathSchemaContext):
                 length = len(item)
             else:
